@@ -1,5 +1,5 @@
 import Oracle.Util
-import MobiusModel.Crash
+import MobiusModel.Request
 /-! Oracle handlers for C20 (model functions exposed on the line protocol). -/
 namespace Oracle
 open Mobius Mobius.Crash
@@ -48,7 +48,53 @@ def observe (vis : String) (fs : FS) : List (Option Bytes) :=
   | ["file", p] => [get fs p.toList]
   | _ => (contents isYaml fs).map some
 
+/-- programs of a request's records (one spec each), each decided in the state the earlier ones left (`reqProg`) -/
+def reqProgs (fs : FS) : List String → Option (List (List Sys))
+  | [] => some []
+  | s :: r => match parseSpec fs s with
+    | none => none
+    | some p => (reqProgs (crash p p.length fs) r).map (p :: ·)
+
+/-- the states after 0, 1, …, n complete records -/
+def statesAfter (fs : FS) : List (List Sys) → List FS
+  | [] => [fs]
+  | p :: r => fs :: statesAfter (crash p p.length fs) r
+
+def firstIdx {α : Type} (f : α → Bool) : List α → Nat → Option Nat
+  | [], _ => none
+  | x :: r, i => if f x then some i else firstIdx f r (i + 1)
+
 def c20Handlers : List (String × Handler) := [
+  -- c20reqprog <n> <spec_1> … <spec_n> [<name:hex>…] → the records' programs, joined by " ; "
+  ("c20reqprog", fun (a : List String) => match a with
+    | n :: rest =>
+      let specs := rest.take (num n)
+      match (rest.drop (num n)).mapM parseEntry with
+      | none => "bad-op"
+      | some ents => match reqProgs (ofList ents) specs with
+        | some ps => " ; ".intercalate (ps.map fun p => " ".intercalate (p.map showSys))
+        | none => "bad-op"
+    | _ => "bad-op"),
+  -- c20reqsim <k> <vis> <n> <spec_1> … <spec_n> <name:hex>… → listing of the crash state of the CONCATENATED program |
+  --   the smallest j such that the loader's view equals the view after j complete records (or torn), total number of calls
+  ("c20reqsim", fun (a : List String) => match a with
+    | k :: vis :: n :: rest =>
+      let specs := rest.take (num n)
+      match (rest.drop (num n)).mapM parseEntry with
+      | none => "bad-op"
+      | some ents =>
+        let fs := ofList ents
+        match reqProgs fs specs with
+        | none => "bad-op"
+        | some ps =>
+          let prog := ps.flatten
+          let st := crash prog (num k) fs
+          let o := observe vis st
+          let verdict := match firstIdx (fun s => observe vis s == o) (statesAfter fs ps) 0 with
+            | some j => toString j
+            | none => "torn"
+          listing st ++ " | " ++ verdict ++ s!" {prog.length}"
+    | _ => "bad-op"),
   -- c20prog <spec> [<name:hex>…] → the system-call program (in directory state fs, default empty)
   ("c20prog", fun (a : List String) => match a with
     | s :: ents => match ents.mapM parseEntry with
